@@ -56,7 +56,15 @@ GetClauses(e) ==
 MultiConcreteClauses(e) ==
   << <<"MultiplicityRefusedOnConcrete", e.outcome = "raised:ValueError">> >>
 
+\* a get_data call recorded from the repository's own tests: the path is known by its projection only
+GetProjClauses(e) ==
+  LET x == GetData(e.proj, e.doc, e.rp) IN
+  << <<"NeverRaises", (x.status = "ok") => e.outcome = "ok">>,
+     <<"SingleRefusesSeveral", (x.status = "raised:ValueError") => e.outcome = "raised:ValueError">>,
+     <<"ResultIsWalk", (x.status = "ok" /\ e.outcome = "ok") => Same(e.res, x.v)>> >>
+
 Clauses(e) == CASE e.op = "get" -> GetClauses(e)
+                [] e.op = "get_proj" -> GetProjClauses(e)
                 [] e.op = "multi_concrete" -> MultiConcreteClauses(e)
 
 Check == LET e == Events[i]
